@@ -1519,4 +1519,84 @@ theorem bEndbfrange_post (v : VM) (h : WF v) : Post v (bEndbfrange v) :=
 theorem bEndnotdefrange_post (v : VM) (h : WF v) : Post v (bEndnotdefrange v) :=
   endRanges_post _ _ (by cmap_add) v h
 
+
+theorem endcmap_core {v : VM} (h : WF v) {d r : Nat} {c' : CMapInfo}
+    (hd : isDictRef v.heap v.roots.resources d) (hr : shapeAt v.heap r = some .cmap)
+    (hc : cmapOK v.heap v.roots.resources c') :
+    Post v ({ ((setCMap v r c').dictPut d "CodeMap" (.cmapInfo r)) with cmapMappings := none }, .ok) := by
+  have p1 : Post v (setCMap v r c', .ok) := Post.setCMap h hr hc rfl rfl rfl rfl rfl h.stack noPanic_ok
+  have hd1 : isDictRef (setCMap v r c').heap (setCMap v r c').roots.resources d := isDictRef_mono p1.ext hd
+  have hx : objOK (setCMap v r c').heap (setCMap v r c').roots.resources (.cmapInfo r) := p1.ext _ _ hr
+  have p2 : Post (setCMap v r c') ((setCMap v r c').dictPut d "CodeMap" (.cmapInfo r), .ok) :=
+    Post.dictPut p1.wf hd1 hx rfl rfl rfl rfl rfl p1.wf.stack
+  have p3 : Post ((setCMap v r c').dictPut d "CodeMap" (.cmapInfo r))
+      ({ ((setCMap v r c').dictPut d "CodeMap" (.cmapInfo r)) with cmapMappings := none }, .ok) :=
+    ⟨wf_clearCMap p2.wf, Ext.refl _, rfl, noPanic_ok⟩
+  exact p1.seq (p2.seq p3)
+
+theorem bEndcmap_post (v : VM) (h : WF v) : Post v (bEndcmap v) := by
+  unfold bEndcmap
+  split
+  · next d ds r hds hcm =>
+    dsimp only [okRes]
+    refine endcmap_core h (h.ds d (by rw [hds]; exact List.mem_cons_self)) (h.cmap r hcm) ?_
+    simp only [cmapOK, List.mem_mergeSort]
+    exact cmapAt_ok h.heap (h.cmap r hcm)
+  · exact Post.refl h (noPanic_ps _)
+
+
+theorem bGet_post (v : VM) (h : WF v) : Post v (bGet v) := by
+  obtain ⟨st, ds, dg, hp, cm, c1, c2, c3, roots⟩ := v
+  unfold bGet
+  dsimp only
+  split
+  · next sel obj rest =>
+    have hs := h.stack
+    simp only [List.forall_mem_cons] at hs
+    obtain ⟨-, hobj, hrest⟩ := hs
+    have getObjs_case : ∀ (r o l : Nat) (i : Int), (∃ n, shapeAt hp r = some (.objs n) ∧ o + l ≤ n) →
+        ¬ (i < 0 ∨ i ≥ l) →
+        ∃ x, (objsAt hp r)[o + i.toNat]? = some x ∧ objOK hp roots.resources x := by
+      intro r o l i ⟨n, hn, hle⟩ hi
+      obtain ⟨hsz, hok⟩ := objsAt_ok h.heap hn
+      dsimp only at hsz hok
+      have hlt : o + i.toNat < (objsAt hp r).size := by omega
+      exact ⟨_, Array.getElem?_eq_getElem hlt, hok _ (Array.getElem_mem _)⟩
+    split
+    · split
+      · split
+        · wf_leaf h
+        · next hi =>
+          obtain ⟨x, hx, hxok⟩ := getObjs_case _ _ _ _ hobj hi
+          simp only [getObjs_eq, hx]
+          wf_leaf h
+      · wf_leaf h
+    · split
+      · split
+        · wf_leaf h
+        · next hi =>
+          obtain ⟨x, hx, hxok⟩ := getObjs_case _ _ _ _ hobj hi
+          simp only [getObjs_eq, hx]
+          wf_leaf h
+      · wf_leaf h
+    · split
+      · split
+        · next x hx => have := dictGet_ok h hobj.1 hx; wf_leaf h
+        · wf_leaf h
+      · wf_leaf h
+    · next r o l =>
+      split
+      · next i =>
+        split
+        · wf_leaf h
+        · next hi =>
+          obtain ⟨n, hn, hle⟩ := hobj
+          obtain ⟨a, ha, hsz, hq⟩ := cell_of_shape_bytes hn
+          have hlt : o + i.toNat < (bytesAt hp r).size := by rw [hq, hsz]; omega
+          simp only [getBytes_eq, Array.getElem?_eq_getElem hlt]
+          wf_leaf h
+      · wf_leaf h
+    · wf_leaf h
+  · wf_leaf h
+
 end PsVerif.Proofs.WF
